@@ -246,24 +246,7 @@ Definition oracle (h : list op) (tr : list (list obs)) : bool := oracle_from s0 
 
 (* ---- input classes of the open findings (DESIGN 3.5), mirrored in harness/drive_C20.py ---- *)
 
-(* C20-F1: an <error> mapping for a name that is not held *)
-Definition unheld_error_op (s : sst) (o : op) : bool :=
-  match o with
-  | OEv ts => match parse_ev ts with
-              | Some v => match v_addr v, s_map s (v_name v) with
-                          | None, None => true
-                          | _, _ => false
-                          end
-              | None => false
-              end
-  | _ => false
-  end.
-Fixpoint unheld_error_from (s : sst) (h : list op) : bool :=
-  match h with
-  | [] => false
-  | o :: h' => unheld_error_op s o || unheld_error_from (spec_step s o) h'
-  end.
-Definition unheld_error (h : list op) : bool := unheld_error_from s0 h.
+(* (C20-F1, an <error> mapping for a name that is not held, was repaired in /repo: a1d3211) *)
 
 (* C20-F2: some string is used both as a name and as a dictionary key for an address
    (the address text, or "<error>") *)
